@@ -73,7 +73,11 @@ def messages(rng, big):
     ms = [b'', b'a', b'\x00', b'x' * 252, b'y' * 253, b'z' * 254, b'w' * 300, 'héllo wörld ✓'.encode(),
           ('é' * 126).encode(), ('é' * 126 + 'a').encode(), ('€' * 84).encode(), ('€' * 85).encode(),
           '\U0001F600'.encode(), ('\U0001F600' * 63 + 'a').encode(), ('\U0001F600' * 64).encode(),
-          b'Bitcoin Signed Message:\n', b'\n', b'\xef\xbb\xbf' + b'bom', ('￿').encode()]
+          b'Bitcoin Signed Message:\n', b'\n', b'\xef\xbb\xbf' + b'bom', ('\uffff\ue000').encode(),
+          # text that is not in Unicode normal form (decomposed accents, Hangul jamo, compatibility
+          # characters) and its composed look-alike: different messages, byte for byte
+          'e\u0301cole'.encode(), '\u00e9cole'.encode(), '\u1112\u1161\u11ab'.encode(), '\ud55c'.encode(),
+          '\u212b \u2126 \ufb01'.encode(), '\u00c5 \u03a9 fi'.encode(), 'A\u030a'.encode(), '\u1e9b\u0323'.encode()]
     ms += [bytes(rng.randrange(32, 127) for _ in range(rng.choice([2, 10, 100, 251, 255, 1000]))) for _ in range(4)]
     if big:
         ms += [b'q' * 65535, b'q' * 65536, ('é' * 32768).encode()]
